@@ -19,11 +19,12 @@ claimed = {
  "C07": ("'<pid> <pad><message>\\n' with symbolic bytes through the real named-pipe and syslog ingesters reaches the processor as exactly (pid, message); audit record lines with symbolic digits/tail parse identically with and without the newline through parseAuditLogs, go-libaudit's parser and reassembler", "§4 C07"),
  "C09": ("two sessions opened by one symbolic PID one after the other, each login line at any position, stray late records; map iteration order is a decision; ghost model per generation", "§4 C09"),
  "C13": ("nine blocking states (pipe waiting for a writer / idle / between records, audit ingester with a full channel of capacity 0,1,2 directly and through its pipe, login hand-off to a never-ready correlator, idle audit processor); cancellation after quiescence; every schedule within the preemption bound must let the worker return and deliver nothing afterwards", "§4 C13"),
+ "C15": ("parseAuditLogs with go-libaudit's real parser and reassembler behind it: K lines (well-formed / empty / malformed at any position) yield one event per well-formed line in order or an error naming the line; two compound events in every interleaving of their records are grouped by sequence; Auditd.Read returns the correlator's and the parser's errors", "§4 C15"),
  "C16": ("correlator histories with both cleanup calls at symbolic cut-offs placed anywhere, symbolic login times and clock readings; what is emitted afterwards must follow the window rule (survivors still correlate, discarded halves never emit late)", "§4 C16"),
  "C20": ("sortLogNamesOldToNew on symbolic rotation suffixes; rotatingFile.read on an in-memory file system under append/fragment/newline/rotate/truncate histories with symbolic bytes", "§4 C20"),
 }
 pending = {}
-for p in ["C08", "C10", "C15"]:
+for p in ["C08", "C10"]:
     pending[p] = "check under construction in this session (solver-based harness not yet registered)"
 checks = []
 for pid in sorted(claimed):
